@@ -889,7 +889,10 @@ class Exec:
                     return z3.ForAll(zs, z3.Implies(rng, body))
                 return z3.Exists(zs, z3.And(rng, body))
             if name == "implies":
-                return z3.Implies(truth(self.spec_ev(t.args[0], st)), truth(self.spec_ev(t.args[1], st)))
+                a = z3.simplify(truth(self.spec_ev(t.args[0], st)))
+                if z3.is_false(a):          # lazy: the consequent may be ill-typed when the antecedent is false (None patterns)
+                    return z3.BoolVal(True)
+                return z3.Implies(a, truth(self.spec_ev(t.args[1], st)))
             if name == "iff":
                 return truth(self.spec_ev(t.args[0], st)) == truth(self.spec_ev(t.args[1], st))
             if name == "old":
